@@ -316,7 +316,10 @@ impl<const NB_PROOFS: usize> LightAggregator<NB_PROOFS> {
                     &mut inner_transcript,
                 )?;
 
-                assert!(dual_msm.clone().check(&srs.verifier_params()));
+                // An invalid inner proof is an error of the caller, not a bug.
+                if !dual_msm.clone().check(&srs.verifier_params()) {
+                    return Err(Error::Opening);
+                }
 
                 let fixed_bases =
                     midnight_circuits::verifier::fixed_bases::<S>("inner_vk", &self.inner_vk);
